@@ -15,6 +15,13 @@ query with noCache=False and noCache=True, for every flavor.
        | {"u": user, "adm": True, "f": flavor, "ops": [], ...}   an administrator's load: Eups(asAdmin=True), as
                                                                  eups admin buildCache -A builds it (persists into ups_db)
        | {"del": [loc, stack, flavor]}                      loc = "u1" | "u2" | "db"   (an outside deletion)
+       | {"u": user, "f": flavor, "live": [step, ...]}      a session: one process in which several Eups instances of the
+                                                            user live at the same time (Model/CacheLive.v)
+  step = {"new": 1}                     one more instance is built (the instances are numbered in that order)
+       | {"i": k, "op": op}              instance k runs an operation
+       | {"i": k, "table": [stack|None, name, version]}   instance k finds the product through the cache and parses its
+                                                            table on demand (Product.getTable hands it back to the stack)
+       | {"i": k, "ask": 1}              instance k is asked every query, through the cache and from the files
   op   = an operation of harness/c06.py  |  {"k": "DC", "loc": loc, "s": stack, "fl": flavor}
        | {"k": "UA", "t": user tag, "n": name, "v": version, "s": stack|None, "f": flavor, "F": bool, "N": bool}
                                                             Eups.assignTag with a user tag (assign, or move to v)
@@ -38,6 +45,7 @@ import os
 import pickle
 import shutil
 import sys
+import time
 
 import common
 from common import enc
@@ -76,6 +84,8 @@ def pickle_path(root, loc, s, fl):
 def setup_world(root):
     for s in STACKS + USERS:
         os.makedirs(os.path.join(root, s, "ups_db"), exist_ok=True)
+    for d in ("/prod/tables", "/prod/extra"):          # where harness/c06.py keeps table files outside the products
+        os.makedirs(root + d, exist_ok=True)
     c06.ensure_products(root)
 
 
@@ -252,6 +262,69 @@ def _proc_child(root, proc):
         from eups import utils
         out["ans"] = ask_everything(x, root, utils.Flavor().getFallbackFlavors(proc["f"], True) + ALLFLAVORS,
                                     UTAGS[proc["u"]])
+    return out
+
+
+def _advance_fs_clock(root):
+    """wait until the clock that stamps the files has moved on: two steps of one process must not write within the
+    same tick of a coarse clock (clock_strict; between processes the model's stamps are written instead)"""
+    p = os.path.join(root, ".clock")
+
+    def stamp():
+        with open(p, "w") as fd:
+            fd.write("x")
+        return os.stat(p).st_mtime_ns
+    t0 = stamp()
+    while stamp() <= t0:
+        time.sleep(0.0004)
+
+
+def _session_child(root, proc):
+    """several live instances in one process; no Database singleton is dropped between them (one interpreter)"""
+    e = _fresh_interpreter_state()
+    c06._quiet()
+    os.environ.clear()
+    os.environ.update(proc_environ(root, proc["u"], proc["f"]))
+    from eups import hooks, utils
+    hooks.config.Eups.userTags = list(UTAGS[proc["u"]])
+    insts = []
+    out = {"out": [], "asks": {}}
+    for k, st in enumerate(proc["live"]):
+        _advance_fs_clock(root)
+        if "new" in st:
+            try:
+                x = e.Eups(flavor=proc["f"])
+            except Exception as ex:  # noqa
+                out["raised"] = "%s: %s" % (type(ex).__name__, str(ex)[:200])
+                return out
+            x.selectVRO(None, None, None, None)
+            insts.append(x)
+            out["out"].append("ok")
+            continue
+        if st["i"] >= len(insts):
+            out["out"].append("undefined")
+            continue
+        x = insts[st["i"]]
+        c06.ensure_products(root)
+        if "op" in st:
+            o = st["op"]
+            out["out"].append(do_uop(x, root, o) if o["k"] in ("UA", "UU") else c06.do_op(x, root, o))
+        elif "table" in st:
+            s_, n, v = st["table"]
+            try:
+                p = x.findProduct(n, v, eupsPathDirs=(os.path.join(root, s_) if s_ else None))
+                if p is not None:
+                    p.getTable()
+                out["out"].append("ok")
+            except Exception as ex:  # noqa
+                out["out"].append("other:" + type(ex).__name__)
+        else:
+            ans = ask_everything(x, root, utils.Flavor().getFallbackFlavors(proc["f"], True) + ALLFLAVORS,
+                                 UTAGS[proc["u"]])
+            out["asks"][str(k)] = {"ans": ans,
+                                   "loaded": {os.path.basename(kk): sorted(v.getFlavors()) for kk, v in x.versions.items()
+                                              if os.path.basename(kk) in STACKS}}
+            out["out"].append("ok")
     return out
 
 
@@ -457,7 +530,7 @@ def uspec_step(decls, utags, u, o):
             del utags[k]
 
 
-def gen_case(rng, max_procs=16, flavors=None, user_tags=None):
+def gen_case(rng, max_procs=16, flavors=None, user_tags=None, live=True):
     flavors = flavors or rng.choice(FLAVOR_SETS)
     two_users = rng.random() < 0.6
     users = USERS if two_users else ["u1"]
@@ -476,6 +549,12 @@ def gen_case(rng, max_procs=16, flavors=None, user_tags=None):
             # know the name lists it in ups_db/global.tags, which re-registers it as a global tag for its owner: a
             # third state that the model does not have.  Histories with user tags have no administrator loads there.)
             procs.append({"u": rng.choice(users), "adm": True, "f": f, "ops": [], "q": False, "crash": None})
+            continue
+        if live and procs and rng.random() < 0.13:
+            sess, decls, tags = gen_session(rng, decls, tags, utags, rng.choice(users), f, user_tags)
+            procs.append(sess)
+            if len(procs) < max_procs and rng.random() < 0.6:
+                procs.append({"u": rng.choice(users), "f": rng.choice(flavors), "ops": [], "q": True, "crash": None})
             continue
         p = {"u": rng.choice(users), "f": f, "ops": [], "q": rng.random() < 0.3, "crash": None}
         for _ in range(rng.choice([1, 1, 2, 2, 3, 4])):
@@ -541,7 +620,192 @@ def directed_case(rng):
     return {"procs": procs}
 
 
+TAG_ONLY = ("A", "U", "UA", "UU")
+
+
+def tag_only(o):
+    """an operation that touches chain files only (on a declared version): assign / move / remove a tag"""
+    return o["k"] in TAG_ONLY or (o["k"] == "T" and not o.get("both")) or (o["k"] == "D" and not o.get("d"))
+
+
+def session_features(p):
+    """which cross-instance circumstances a session contains (histogram keys)"""
+    out = set()
+    n = 0
+    pending = {}          # instance -> operations run by OTHER instances since its last step
+    tables = set()        # instances that parsed a table and have not written through since
+    changed = False
+    for st in p["live"]:
+        if "new" in st:
+            if changed:
+                out.add("instance-built-after-a-change-by-another")
+            pending[n] = []
+            n += 1
+            continue
+        i = st["i"]
+        if i not in pending:
+            continue
+        if "table" in st:
+            tables.add(i)
+        elif "op" in st:
+            if pending[i]:
+                out.add("write-through-after-a-change-by-another-instance")
+            tables.discard(i)
+            changed = True
+            for j in pending:
+                if j != i:
+                    pending[j].append(st["op"])
+        else:
+            if pending[i]:
+                out.add("asked-after-a-change-by-another-instance")
+                if any(tag_only(o) for o in pending[i]):
+                    out.add("asked-after-a-tag-only-change-by-another-instance")
+                if i in tables:
+                    out.add("asked-after-a-table-read-and-a-change-by-another-instance")
+        pending[i] = []
+    out.add("instances%d" % n)
+    return sorted(out)
+
+
+def gen_session(rng, decls, tags, utags, u, f, user_tags):
+    """one process with two or three live instances of user u: commands, table reads and questions interleaved"""
+    steps = [{"new": 1}, {"new": 1}]
+    ninst, asks = 2, 0
+    for _ in range(rng.choice([3, 4, 5, 6, 8])):
+        r = rng.random()
+        i = rng.randrange(ninst)
+        if r < 0.50:
+            if user_tags and decls and rng.random() < 0.3:
+                o = gen_uop(rng, decls, utags, u, f)
+                uspec_step(decls, utags, u, o)
+            else:
+                o = gen_op(rng, decls, tags, f)
+                _, decls, tags = c06.spec_step(decls, tags, o)
+            steps.append({"i": i, "op": o})
+        elif r < 0.66:
+            known = [k for k in decls if k[3] == f]
+            if known and rng.random() < 0.9:
+                k = rng.choice(known)
+                steps.append({"i": i, "table": [rng.choice([None, k[0]]), k[1], k[2]]})
+            else:
+                steps.append({"i": i, "table": [None, rng.choice(NAMES), rng.choice(VERSIONS)]})
+        elif r < 0.93:
+            if asks < 2:
+                asks += 1
+                steps.append({"i": i, "ask": 1})
+        elif ninst < 3:
+            steps.append({"new": 1})
+            ninst += 1
+    steps.append({"i": rng.randrange(ninst), "ask": 1})
+    return {"u": u, "f": f, "live": steps}, decls, tags
+
+
+def directed_live_case(rng):
+    """two instances A and B of one user live in one process.  A may parse a table on demand; B then changes the stack
+    (a tag moved between two declared versions, a tag removed, a version declared or undeclared); A is asked; A may
+    then write something else through, and B be asked; at the end new processes of both users read."""
+    n, n2 = rng.sample(NAMES, 2)
+    v1, v2, v3 = rng.sample(VERSIONS, 3)
+    f = rng.choice(["generic", "generic", "Linux64"])
+    u = rng.choice(USERS)
+    s = rng.choice([None, "s1", "s2"])
+    t, t2 = rng.sample(TAGS, 2)
+    base = {"f": f, "s": s, "F": False, "N": False}
+    setup = [dict(base, k="D", n=n, v=v1, d="A", t=t, tb=None), dict(base, k="D", n=n, v=v2, d="A", t=None, tb=None)]
+    if rng.random() < 0.5:
+        setup.append(dict(base, k="D", n=n2, v=v1, d="A", t=rng.choice([None, t, t2]), tb=None))
+    cut = rng.randrange(1, len(setup) + 1)
+    procs = [{"u": u, "f": f, "ops": part, "q": False, "crash": None} for part in (setup[:cut], setup[cut:]) if part]
+    a, b = rng.choice([(0, 1), (1, 0)])
+    live = [{"new": 1}, {"new": 1}]
+    if rng.random() < 0.6:
+        live.append({"i": a, "table": [s, n, rng.choice([v1, v2])]})
+    change = rng.choice(["move", "move", "move-declare", "untag", "untag", "undeclare-tag", "declare", "undeclare"])
+    if change == "move":
+        op = dict(base, k="A", t=t, n=n, v=v2)
+    elif change == "move-declare":
+        op = dict(base, k="D", n=n, v=v2, d=None, t=t, tb=None)
+    elif change == "untag":
+        op = dict(base, k="U", t=t, n=n, v=rng.choice([None, v1]))
+    elif change == "undeclare-tag":
+        op = dict(base, k="T", t=t, n=n, v=rng.choice([None, v1]), both=False)
+    elif change == "declare":
+        op = dict(base, k="D", n=n, v=v3, d="A", t=rng.choice([None, t]), tb=None)
+    else:
+        op = dict(base, k="X", n=n, v=rng.choice([v1, v2]))
+    live.append({"i": b, "op": op})
+    live.append({"i": a, "ask": 1})
+    if rng.random() < 0.6:
+        # A writes something else through: its copy of the flavor goes into the cache file
+        other = rng.choice([dict(base, k="D", n=n2, v=v2, d="A", t=None, tb=None),
+                            dict(base, k="A", t=t2, n=n, v=v2)])
+        live.append({"i": a, "op": other})
+        if rng.random() < 0.5:
+            live.append({"i": b, "ask": 1})
+    procs.append({"u": u, "f": f, "live": live})
+    other_u = [x for x in USERS if x != u][0]
+    procs.append({"u": u, "f": f, "ops": [], "q": True, "crash": None})
+    procs.append({"u": other_u, "f": f, "ops": [], "q": True, "crash": None})
+    return {"procs": procs}
+
+
+def directed_live_flavor_case(rng):
+    """the cache directory of the user holds a cache file for a flavor that a live instance did not load (it is not the
+    instance's flavor nor a fall-back of it), and that file is out of date: somebody else changed that flavor's
+    declarations since.  Two instances of the user live in one process; one changes something, the other is asked -
+    about every flavor."""
+    f, other = rng.choice([("generic", "Linux64"), ("generic", "Darwin"), ("Linux64", "Darwin"), ("Darwin", "Linux64")])
+    u = rng.choice(USERS)
+    u2 = [x for x in USERS if x != u][0]
+    s = rng.choice(["s1", "s2"])
+    n, n2 = rng.sample(NAMES, 2)
+    v1, v2 = rng.sample(VERSIONS, 2)
+    t = rng.choice(TAGS)
+    ob = {"f": other, "s": s, "F": False, "N": False}
+    fb = {"f": f, "s": rng.choice([None, s]), "F": False, "N": False}
+    procs = [{"u": u, "f": other, "ops": [dict(ob, k="D", n=n, v=v1, d="A", t=t, tb=None)], "q": False, "crash": None}]
+    change = rng.choice([dict(ob, k="X", n=n, v=v1), dict(ob, k="D", n=n, v=v2, d="A", t=t, tb=None),
+                         dict(ob, k="U", t=t, n=n, v=None)])
+    procs.append({"u": u2, "f": other, "ops": [change], "q": False, "crash": None})
+    if rng.random() < 0.5:
+        procs.append({"u": u, "f": f, "ops": [dict(fb, k="D", n=n2, v=v1, d="A", t=None, tb=None)], "q": False, "crash": None})
+    a, b = rng.choice([(0, 1), (1, 0)])
+    live = [{"new": 1}, {"new": 1}]
+    if rng.random() < 0.4:
+        live.append({"i": a, "table": [None, n2, v1]})
+    live.append({"i": b, "op": dict(fb, k="D", n=n2, v=v2, d="A", t=rng.choice([None, t]), tb=None)})
+    live.append({"i": a, "ask": 1})
+    procs.append({"u": u, "f": f, "live": live})
+    procs.append({"u": u, "f": f, "ops": [], "q": True, "crash": None})
+    return {"procs": procs}
+
+
 # ------------------------------------------------------------------ model side
+
+def op_line(o):
+    """an operation of the C06 histories in the line format ocaml/drv_c07.ml reads (dec_op); kept here so that the two
+    stay in step whatever harness/c06.py sends to its own driver"""
+    opt = lambda x: "~" if x is None else (enc(x) or "%")
+    head = [o["k"], enc(o["f"]), opt(o["s"]), "1" if o["F"] else "0", "1" if o["N"] else "0"]
+    k = o["k"]
+    if k == "D":
+        d = c06.cdir(o["n"], o["v"], o["d"]) if o["d"] else None
+        tb = c06.ctable(o["n"], o["v"], o["d"], "alt") if (o.get("tb") and o["d"]) else None
+        rest = [enc(o["n"]), enc(o["v"]), opt(d), opt(tb), opt(o["t"])]
+    elif k == "A":
+        rest = [enc(o["t"]), enc(o["n"]), enc(o["v"])]
+    elif k == "U":
+        rest = [enc(o["t"]), enc(o["n"]), opt(o["v"])]
+    elif k == "X":
+        rest = [enc(o["n"]), opt(o["v"])]
+    elif k == "T":
+        rest = [enc(o["n"]), opt(o["v"]), enc(o["t"]), "1" if o["both"] else "0"]
+    elif k == "R":
+        rest = [enc(o["n"]), enc(o["v"])]
+    else:
+        raise ValueError(o)
+    return ",".join(head + rest)
+
 
 def pop_line(o):
     if o["k"] == "DC":
@@ -550,12 +814,24 @@ def pop_line(o):
         opt = lambda x: "~" if x is None else (enc(x) or "%")
         return ",".join([o["k"], enc(o["f"]), opt(o["s"]), "1" if o.get("F") else "0", "1" if o.get("N") else "0",
                          enc(o["t"]), enc(o["n"]), opt(o["v"]) if o["k"] == "UU" else enc(o["v"])])
-    return c06.op_line(o)
+    return op_line(o)
+
+
+def step_line(st):
+    if "new" in st:
+        return "N"
+    if "op" in st:
+        return "O@%d@%s" % (st["i"], pop_line(st["op"]))
+    if "table" in st:
+        return "T@%d" % st["i"]
+    return "Q@%d" % st["i"]
 
 
 def proc_line(p):
     if "del" in p:
         return ";".join(["X"] + [enc(x) for x in p["del"]])
+    if "live" in p:
+        return ";".join(["S", enc(p["u"]), enc(p["f"]), "&".join(step_line(st) for st in p["live"])])
     cr = p.get("crash")
     crs = "~" if not cr else "%d,%d,%d" % (cr["op"], cr["g"], 1 if cr["when"] == "post" else 0)
     return ";".join(["P", enc(p["u"]), "1" if p.get("adm") else "0", enc(p["f"]), crs, "1" if p.get("q") else "0",
@@ -563,20 +839,20 @@ def proc_line(p):
 
 
 def case_line(case, v_rm=False, v_init=False, v_uloc=False, v_ustale=False, v_noread=False, v_shared=False,
-              v_foreign=False):
+              v_foreign=False, v_reloadall=False):
     univ = ";".join([",".join(NAMES), ",".join(VERSIONS), ",".join(TAGS), ",".join(ALLFLAVORS), ",".join(ALLUTAGS),
                      "+".join("%s=%s" % (u, ",".join(UTAGS[u])) for u in USERS)])
     b = lambda x: "1" if x else "0"
     return "\t".join(["case", b(v_rm), b(v_init), ",".join(STACKS), univ,
                       "|".join(proc_line(p) for p in case["procs"]), b(v_uloc), b(v_ustale), b(v_noread), b(v_shared),
-                      b(v_foreign)])
+                      b(v_foreign), b(v_reloadall)])
 
 
 def _d(x):
     return common.dec("" if x == "%" else x)
 
 
-OUTCLASS = {"ok": "ok", "err:NotFound": "notfound", "err:Refused": "refused", "raised": "notfound",
+OUTCLASS = {"ok": "ok", "err:Undefined": "undefined", "err:NotFound": "notfound", "err:Refused": "refused", "raised": "notfound",
             "crashed": "crashed"}
 
 
@@ -615,7 +891,18 @@ def parse_model(line):
         for r in (loaded.split(";") if loaded else []):
             s, fl = r.split("=")
             st["loaded"][_d(s)] = sorted(set(_d(x) for x in fl.split(",") if x))
-        if ans:
+        if ">" in ans:
+            # a session: one block per ask step
+            st["asks"] = {}
+            for blk in ans.split("@"):
+                k, ld, rows, brecs, untracked, untracked_any = blk.split(">")
+                lds = {}
+                for r in (ld.split(";") if ld else []):
+                    s, fl = r.split("=")
+                    lds[_d(s)] = sorted(set(_d(x) for x in fl.split(",") if x))
+                st["asks"][k] = {"loaded": lds, "chains": [r.split(",") for r in brecs.split(";") if r and r.split(",")[1] == "C"],
+                                 "ans": sorted([_d(x) for x in r.split(",")] for r in rows.split(";")) if rows else []}
+        elif ans:
             st["ans"] = sorted([_d(x) for x in r.split(",")] for r in ans.split(";"))
         out.append(st)
     return out
@@ -676,7 +963,17 @@ def impl_case(arg):
             before = mtimes(dict(dict(scan_records(root), **scan_urecords(root)),
                                  **{"P:" + k: v for k, v in scan_pickles(root).items()}))
             o = {"out": [], "loaded": {}, "ans": None, "died": None, "raised": None}
-            if "del" in p:
+            if "live" in p:
+                r = common.in_child(_session_child, root, p, timeout=180)
+                if r[0] == "ok":
+                    o["out"] = r[1]["out"]
+                    o["raised"] = r[1].get("raised")
+                    o["asks"] = r[1]["asks"]
+                elif r[0] == "died":
+                    o["died"] = r[1]
+                else:
+                    o["died"] = "exception %s: %s" % (r[1], r[2][:300])
+            elif "del" in p:
                 pp = pickle_path(root, *p["del"])
                 if os.path.exists(pp):
                     os.remove(pp)
@@ -773,7 +1070,19 @@ def first_diff(case, mres, obs):
         mt = model_touched(prev, m)
         if mt != o["touched"]:
             return i, "touched", mt, o["touched"]
-        if o["died"] is None and "del" not in p:
+        if "live" in p and o["died"] is None:
+            for k in sorted(m.get("asks", {}), key=int):
+                ma, oa = m["asks"][k], (o.get("asks") or {}).get(k)
+                if oa is None:
+                    return i, "step %s: no answers" % k, "answers", None
+                if ma["loaded"] != oa["loaded"]:
+                    return i, "step %s: loaded-flavors" % k, ma["loaded"], oa["loaded"]
+                ir = impl_rows(oa["ans"])
+                if ma["ans"] != ir:
+                    a = [r for r in ma["ans"] if r not in ir]
+                    b = [r for r in ir if r not in ma["ans"]]
+                    return i, "step %s: answers" % k, a[:6], b[:6]
+        elif o["died"] is None and "del" not in p:
             if m["loaded"] != o["loaded"]:
                 return i, "loaded-flavors", m["loaded"], o["loaded"]
         if p.get("q") and o["died"] is None:
@@ -798,29 +1107,51 @@ def oracle(case, obs):
         if o.get("raised"):
             # no answer at all: the caches (or the tag files) could not even be loaded
             return i, ("admin-load-raises" if p.get("adm") else "load-raises"), ["an Eups instance"], [o["raised"]]
-        if not o.get("ans"):
+        r = None
+        for step, ans in answer_sets(o):
+            r = oracle_rows(ans)
+            if r is not None:
+                return (i,) + r
+    return None
+
+
+def answer_sets(o):
+    """the answer sets one process gave: [(step index or None, answers)] - one for a reader, one per ask step of a session"""
+    if o.get("asks"):
+        return [(int(k), o["asks"][k]["ans"]) for k in sorted(o["asks"], key=int)]
+    return [(None, o["ans"])] if o.get("ans") else []
+
+
+def failing_step(o):
+    for step, ans in answer_sets(o):
+        if oracle_rows(ans) is not None:
+            return step
+    return None
+
+
+def oracle_rows(ans):
+    """one set of answers: (kind, only in the files, only in the cache) or None"""
+    for k in ("decl", "tag", "pdecl", "ptag", "list", "utag", "putag"):
+        if k not in ans:
             continue
-        for k in ("decl", "tag", "pdecl", "ptag", "list", "utag", "putag"):
-            if k not in o["ans"]:
-                continue
-            rows = o["ans"][k]
-            c = sorted(r[1:] for r in rows if r[0] == "cache")
-            f = sorted(r[1:] for r in rows if r[0] == "files")
-            if c == f:
-                continue
-            only_f, only_c = [r for r in f if r not in c], [r for r in c if r not in f]
-            # the label says which clause broke: a declaration (or tag) the files have and the cache lacks,
-            # one only the cache has, or the same declarations with different tag lists
-            bare = lambda rows: sorted(r[:-1] for r in rows) if k in ("decl", "pdecl", "list") else rows
-            if bare(c) == bare(f):
-                # same declarations, different tag lists: say whether user tags are what differs
-                ut = lambda rows: sorted([r[:-1], [t for t in r[-1] if t.startswith("user:")]] for r in rows)
-                what = "user-tags-of-version" if ut(c) != ut(f) else "tags-of-version"
-            elif [r for r in bare(f) if r not in bare(c)]:
-                what = "missing-from-cache"
-            else:
-                what = "only-in-cache"
-            return i, "incoherent-%s-%s" % (k, what), only_f, only_c
+        rows = ans[k]
+        c = sorted(r[1:] for r in rows if r[0] == "cache")
+        f = sorted(r[1:] for r in rows if r[0] == "files")
+        if c == f:
+            continue
+        only_f, only_c = [r for r in f if r not in c], [r for r in c if r not in f]
+        # the label says which clause broke: a declaration (or tag) the files have and the cache lacks,
+        # one only the cache has, or the same declarations with different tag lists
+        bare = lambda rows: sorted(r[:-1] for r in rows) if k in ("decl", "pdecl", "list") else rows
+        if bare(c) == bare(f):
+            # same declarations, different tag lists: say whether user tags are what differs
+            ut = lambda rows: sorted([r[:-1], [t for t in r[-1] if t.startswith("user:")]] for r in rows)
+            what = "user-tags-of-version" if ut(c) != ut(f) else "tags-of-version"
+        elif [r for r in bare(f) if r not in bare(c)]:
+            what = "missing-from-cache"
+        else:
+            what = "only-in-cache"
+        return "incoherent-%s-%s" % (k, what), only_f, only_c
     return None
 
 
@@ -829,6 +1160,14 @@ def oracle(case, obs):
 # behaviours; EUPS_VERIF_C07_REPAIRED=1 selects the repaired model, for a run against a tree that has the five patches
 PINNED = {"v_uloc": True, "v_ustale": True, "v_noread": True, "v_shared": True}
 REPAIRED = {}
+
+
+# ProductStack.ensureInSync: the model follows the repaired code (the flavors the stack holds are read again,
+# proposed_fixes/C07-ensure-in-sync-held-flavors); EUPS_VERIF_C07_RELOAD_ALL=1 selects the behaviour before that repair
+# (every flavor that has a cache file in the directory is read), for a run against a tree that lacks it
+if os.environ.get("EUPS_VERIF_C07_RELOAD_ALL") == "1":
+    PINNED["v_reloadall"] = True
+    REPAIRED["v_reloadall"] = True
 
 
 def tree_variant():
@@ -867,6 +1206,15 @@ def shrink(ctx, case, still_bad):
     procs = ddmin_list(case["procs"], lambda ps: still_bad({"procs": ps}))
     for i in range(len(procs)):
         p = procs[i]
+        if "live" in p:
+            def test_live(steps, i=i, p=p):
+                return still_bad({"procs": procs[:i] + [dict(p, live=steps)] + procs[i + 1:]})
+            # the instances are numbered in the order they are built: the steps that build them stay
+            keep = [st for st in p["live"] if "new" in st]
+            rest = ddmin_list([st for st in p["live"] if "new" not in st] or [None],
+                              lambda steps: test_live(keep + [st for st in steps if st]))
+            procs[i] = dict(p, live=keep + [st for st in rest if st])
+            continue
         if "del" in p or len(p.get("ops", [])) < 2 or p.get("crash"):
             continue
 
@@ -881,9 +1229,12 @@ def shape(case):
     fl = sorted(set(p["f"] for p in case["procs"] if "f" in p))
     us = sorted(set(p["u"] for p in case["procs"] if "u" in p))
     cr = sum(1 for p in case["procs"] if p.get("crash"))
-    ut = any(o["k"] in ("UA", "UU") for p in case["procs"] for o in p.get("ops", []))
-    return "procs%02d-%02d/%s/users%d/crashes%d/%s" % (np_ // 4 * 4, np_ // 4 * 4 + 3, "+".join(fl), len(us), min(cr, 3),
-                                                     "usertags" if ut else "globaltags")
+    ut = any(o["k"] in ("UA", "UU") for p in case["procs"]
+             for o in p.get("ops", []) + [st["op"] for st in p.get("live", []) if "op" in st])
+    live = max([sum(1 for st in p["live"] if "new" in st) for p in case["procs"] if "live" in p] or [0])
+    return "procs%02d-%02d/%s/users%d/crashes%d/%s/%s" % (np_ // 4 * 4, np_ // 4 * 4 + 3, "+".join(fl), len(us), min(cr, 3),
+                                                        "usertags" if ut else "globaltags",
+                                                        "live-instances%d" % live if live else "one-instance-per-process")
 
 
 KIND_SHRUNK = {}
@@ -905,8 +1256,11 @@ def classify(c, m, dis, r):
         return kind
     if dis is not None and dis[0] <= i:
         return kind
-    if not any(k.split("/")[1] == "C" and k.split("/")[-1] in ALLUTAGS
-               for st in m[:i + 1] for k in st["rec"] if not k.startswith("U:")):
+    planted = any(k.split("/")[1] == "C" and k.split("/")[-1] in ALLUTAGS
+                  for st in m[:i + 1] for k in st["rec"] if not k.startswith("U:"))
+    # (inside a session: the chain files of the stacks at the ask steps)
+    planted = planted or any(_d(r[3]) in ALLUTAGS for blk in m[i].get("asks", {}).values() for r in blk["chains"])
+    if not planted:
         return kind
     what = kind.split("-")[1]
     if what in ("utag", "putag"):
@@ -922,9 +1276,17 @@ def classify(c, m, dis, r):
 
 def process(ctx, results, budget=[6]):
     for c, m, o, dis, orc in results:
-        nops = sum(len(p.get("ops", [])) + 1 for p in c["procs"])
+        nops = sum(len(p.get("ops", [])) + len(p.get("live", [])) + 1 for p in c["procs"])
         ctx.count(nops, key=shape(c), nontrivial=case_line(c) if any(st["rec"] for st in m) else None)
         for p, ob in zip(c["procs"], o):
+            if "live" in p:
+                ctx.bump("proc/session")
+                for key in session_features(p):
+                    ctx.bump("session/" + key)
+                for st, oc in zip(p["live"], ob["out"]):
+                    ctx.bump("step/%s" % ("new" if "new" in st else "table" if "table" in st else "ask" if "ask" in st
+                                          else "op/%s/%s" % (st["op"]["k"], oc.split(":")[0])))
+                continue
             ctx.bump("proc/%s" % ("delete" if "del" in p else "admin-load" if p.get("adm") else
                                   "crash-" + p["crash"]["when"] if p.get("crash") else
                                   "reader" if not p["ops"] else "writer"))
@@ -943,7 +1305,7 @@ def process(ctx, results, budget=[6]):
             ctx.disagree(cc, {"at": d2[0], "field": d2[1], "value": d2[2]}, {"at": d2[0], "field": d2[1], "value": d2[3]},
                          where="process %d, %s" % (d2[0], d2[1]))
         if orc is not None:
-            cc, r = c, orc
+            cc, r, obs_used = c, orc, o
             kind = orc[1]
             open_finding = classify(c, m, dis, orc).startswith("user-tag-location/")
             # two shrunk witnesses per clause are enough; the open findings have theirs in the corpus
@@ -955,12 +1317,26 @@ def process(ctx, results, budget=[6]):
                     return r is not None and r[1] == kind
                 cc = shrink(ctx, c, bad)
                 c2, m2, o2, dis2, orc2 = evaluate(ctx, [cc])[0]
-                r = orc2 or orc
-                final_kind = classify(cc, m2, dis2, r) if orc2 else r[1]
+                if orc2:
+                    r, obs_used = orc2, o2
+                    final_kind = classify(cc, m2, dis2, r)
+                else:
+                    cc, final_kind = c, r[1]
             else:
                 final_kind = classify(c, m, dis, r)
             cc = {"procs": cc["procs"][:r[0] + 1]}
-            if r[1].endswith("load-raises"):
+            step = None
+            if "live" in cc["procs"][-1] and not r[1].endswith("load-raises"):
+                # cut the session after the ask step that failed
+                step = failing_step(obs_used[r[0]])
+                if step is not None:
+                    cc = {"procs": cc["procs"][:-1] + [dict(cc["procs"][-1], live=cc["procs"][-1]["live"][:step + 1])]}
+            if step is not None:
+                what = ("process %d is a session (several live Eups instances of one user in one process), step %d: "
+                        "instance %d is asked; its answers through the cache differ from the answers read from the "
+                        "database files; expected = rows only the files give, observed = rows only the cache gives"
+                        % (r[0], step, cc["procs"][-1]["live"][step]["i"]))
+            elif r[1].endswith("load-raises"):
                 what = ("process %d: building the Eups instance (which loads or rebuilds the caches) raised; "
                         "observed = the exception" % r[0])
             else:
@@ -997,7 +1373,17 @@ def configure(ctx):
                 "flavor of the fall-back list with noCache=False and noCache=True, and findProducts against "
                 "Database.findProducts; after every process the modification times are rewritten to the model's "
                 "logical stamps; 60 directed histories per run (a version carrying several global or user tags is "
-                "undeclared while another version stays, then declared again, and read by both users); one evaluation = one operation or one load; a case is non-trivial when some record "
+                "undeclared while another version stays, then declared again, and read by both users); "
+                "SESSIONS (about one process in eight of the random histories, 60 + 24 directed histories per run): one "
+                "forked child builds two or three Eups instances of one user that live at the same time and interleaves "
+                "their commands (any operation above, user tags included), table files parsed on demand through "
+                "Product.getTable (which marks the flavor of the stack as updated), further instances built in between, and "
+                "questions to any instance (all queries, cache and files); between two steps the child waits for the clock "
+                "that stamps the files to move on; directed sessions: instance A (may parse a table), instance B moves a "
+                "tag between two declared versions / removes a tag / undeclares --tag / declares / undeclares, A is "
+                "asked, A writes something else through, B is asked, then new processes of both users read; and the same "
+                "with an out-of-date cache file of ANOTHER flavor lying in the user's cache directory; "
+                "one evaluation = one operation, one step or one load; a case is non-trivial when some record "
                 "exists at some point; distinct = distinct encoded case")
     ctx.trusted_base = common.COMMON_TRUSTED + [
         "modelled, not verified: the decisions of the commands (Model/Db.v, tied to the code by C06) are taken on "
@@ -1007,8 +1393,17 @@ def configure(ctx):
         "clock_strict: every record effect and every cache-file write gets a modification time strictly later than "
         "all earlier ones (the harness writes the model's logical stamps, one second apart, after every process); "
         "with equal stamps the property is false (coherent_refuted_coarse_clock)",
-        "processes run one after the other (the commands hold the C09 locks); two live Eups instances of different "
-        "users that interleave their updates are outside the model",
+        "processes run one after the other (the commands hold the C09 locks).  Inside one process several Eups "
+        "instances of ONE user and one flavor may live at the same time and interleave commands, table reads and "
+        "questions (sessions, Model/CacheLive.v).  Outside the model and the generator: live instances of different "
+        "users or of different flavors at the same time (nothing tells an instance that another user's command changed "
+        "the database: ensureInSync watches the instance's own cache files only), cache files deleted and deaths "
+        "while several instances live (a death ends the whole process; deletions are covered between and inside "
+        "single-instance processes)",
+        "the model follows /repo with the two repairs this class of histories led to: ProductStack.ensureInSync reads again "
+        "the flavors the stack holds (D57; EUPS_VERIF_C07_RELOAD_ALL=1 selects the model of the code before it, which read "
+        "every cache file of the directory: live_refuted_pinned_reload_all) and ProductStack.fromCache persists the stack "
+        "into its own directory after falling back on the shared files of ups_db (D58; no switch: Model/Cache.v from_cache)",
         "no user's data directory is a stack's ups_db; an administrator's instance (asAdmin) only loads - the command "
         "line offers it to eups admin buildCache / clearCache only - and holds no user tags (documented in Eups.__init__); "
         "the user-tag theorem is about the instances of ordinary users",
@@ -1040,8 +1435,10 @@ def run(ctx):
     ctx.check_theorems()
     try:
         process(ctx, evaluate(ctx, corpus_cases()))
-        ncases = ctx.size(1000, 16000)
+        ncases = ctx.size(800, 14000)
         cases = [directed_case(ctx.rng) for _ in range(ctx.size(60, 600))]
+        cases += [directed_live_case(ctx.rng) for _ in range(ctx.size(60, 600))]
+        cases += [directed_live_flavor_case(ctx.rng) for _ in range(ctx.size(24, 240))]
         cases += [gen_case(ctx.rng, max_procs=ctx.rng.choice([6, 10, 16, 16])) for _ in range(ncases)]
         for c in cases[:2]:
             ctx.sample(c)
